@@ -77,7 +77,8 @@ func genC02(t *rapid.T) c02Case {
 	c := c02Case{A: a, B: b, InclPubKey: rapid.Bool().Draw(t, "incl"), PreVerify: rapid.IntRange(0, 2).Draw(t, "preverify") == 0}
 	if rapid.IntRange(0, 3).Draw(t, "malformed") == 0 {
 		c.Malform = rapid.SampledFrom(c02Malforms).Draw(t, "malform")
-		c.HTVal = rapid.SampledFrom([]int{0, 4, 5, 6, 100, -1, 1 << 30, 1, 2, 3}).Draw(t, "htval")
+		// incl. values whose varint has several bytes and whose 7-bit groups, or low bits, look like a known type
+		c.HTVal = rapid.SampledFrom([]int{0, 4, 5, 6, 100, -1, 1 << 30, 1, 2, 3, 129, 130, 131, 256, 257, 258, 259, 385, 16385, 16386, 1<<14 + 3, 1<<21 + 1, 1<<28 + 2, -127, -2147483647}).Draw(t, "htval")
 		c.Mut = gen.GenMut(t, "smut")
 	}
 	return c
@@ -166,6 +167,17 @@ func checkC02(c c02Case) (o vstat.Outcome) {
 		raw, _ := gen.Key(c.A.Key).GetPublic().Raw()
 		sig.PubKey = append(append([]byte{0x08, 0x01, 0x12, 0x20}, raw...), 0x1a, byte(2+c.Mut.Val%100), 0x01)
 		wantValidateErr = true
+	}
+	// what goes over the wire is what the other side verifies: the object survives its own binary encoding unchanged
+	if wb, werr := sig.MarshalVT(); werr == nil {
+		back := &peer.Signature{}
+		if uerr := back.UnmarshalVT(wb); uerr != nil || !back.EqualVT(sig) {
+			o.V = vstat.Viol("wire-roundtrip-differs", "Signature{hash_type=%d, %d-byte pub_key, %d-byte sig} decodes from its own encoding as hash_type=%d (err=%v)", sig.GetHashType(), len(sig.GetPubKey()), len(sig.GetSigData()), back.GetHashType(), uerr)
+			return
+		}
+		if c.Mut.Val%2 == 0 {
+			sig = back
+		}
 	}
 	effHT := int(sig.HashType)
 	// model: sign bodies identical and same key  <=> verifies
